@@ -148,3 +148,26 @@ pub open spec fn sp_type_octet(id: u8, critical: bool) -> u8 { if critical { (id
 pub open spec fn subpacket_enc(w: int, type_octet: u8, body: Seq<u8>) -> Seq<u8> {
     splen_enc(w, 1 + body.len()) + seq![type_octet] + body
 }
+
+// ---- RFC 9580 5.4: One-Pass Signature packet (type ID 4) ---------------------------------------
+//   A one-octet version number (3 or 6).  A one-octet signature type ID.  A one-octet hash algorithm ID.
+//   A one-octet public-key algorithm ID.
+//   Only for version 6: a variable-length field containing a one-octet salt size [...] and the salt.
+//   Only for version 3: the eight-octet Key ID of the signer.
+//   Only for version 6: the 32 octets of the fingerprint of the signing key.
+//   A one-octet number holding a flag showing whether the signature is nested.
+pub open spec fn ops_v3_layout(typ: u8, hash: u8, pk: u8, key_id: Seq<u8>, nested: u8) -> Seq<u8>
+    recommends key_id.len() == 8
+{
+    seq![3u8, typ, hash, pk] + key_id + seq![nested]
+}
+pub open spec fn ops_v6_layout(typ: u8, hash: u8, pk: u8, salt: Seq<u8>, fingerprint: Seq<u8>, nested: u8) -> Seq<u8>
+    recommends salt.len() <= 255, fingerprint.len() == 32
+{
+    seq![6u8, typ, hash, pk] + seq![salt.len() as u8] + salt + fingerprint + seq![nested]
+}
+/// a version this implementation does not know: everything between the four common octets and the
+/// trailing nested flag is kept opaque
+pub open spec fn ops_unknown_layout(version: u8, typ: u8, hash: u8, pk: u8, data: Seq<u8>, nested: u8) -> Seq<u8> {
+    seq![version, typ, hash, pk] + data + seq![nested]
+}
